@@ -47,6 +47,7 @@ func round12(c *Ctx, r *Report, p string) {
 		canonicalOnlyListed(c, r, "C10.R3.canonical-only-listed")
 		algorithmComparedAsIs(c, r, "C10.R1.algorithm-as-is", "RRSIG.Verify", "RRSIG")
 	case "C19":
+		trimNeverEmpty(c, r, "C19.R6.trim-never-empty")
 		namesNotComparedAsStrings(c, r, "C19.R6.names-not-compared-as-strings")
 		noOverlappingScratch(c, r, "C19.R2.no-overlapping-scratch", []string{"CompareDomainName", "Split", "IsSubDomain", "CountLabel"})
 	case "C06":
